@@ -351,6 +351,11 @@ var c11Config = map[string]string{
 
 func c11(c *Ctx) {
 	p, r := c.K1(), c.R
+	// R9: concurrent interface mocks never receive the same stub space — the reserve hands out regions computed from the
+	// atomic reservation (C20.R1)
+	if !c.importing {
+		importSibling(c, "C20", "C11.R9", func(rule string) bool { return rule == "C20.R1" })
+	}
 	// ---- R5: what two builders hand to the patch layer is private to each of them: the entry-jump emitters return fresh
 	// bytes, never a view of package-level storage (shared with C01.R1 / C15.E)
 	for _, em := range emitterFuncs(p) {
